@@ -2,6 +2,7 @@ import SoxrModel.Vr.Lemmas
 import SoxrModel.Vr.Frames
 import SoxrModel.Vr.Fade
 import SoxrModel.Vr.Engine
+import SoxrModel.Vr.ExactNum
 import Mathlib.Tactic.Linarith
 import Mathlib.Tactic.Ring
 /-!
@@ -731,6 +732,25 @@ theorem frames_full_engine_rounded_ratio (cfg : Cfg ρ) (mx r : ρ) (blocks : Li
     have : (K + 2) * (rate * q) ≤ (K + 2) * (p * 8589934592 + e) := Int.mul_le_mul_of_nonneg_left he1 hk2
     nlinarith
 
+/-- **… with no hypothesis on the floating-point evaluation left, for the exact one** (`Num.exact`: exact dyadic arithmetic
+    on the bit patterns, which the driver compares with IEEE arithmetic at every ratio): for EVERY declared maximum
+    `max < 2³¹` and EVERY normal double `2⁻⁶ ≤ r ≤ max` (doubles as bit patterns; positive doubles are ordered as their
+    bit patterns) the stage chosen by the octave suits the increment (`inRange_exact`), so: fresh engine, first ratio
+    `r`, any blocking, any flush sequence ending drained ⇒ `N/ρ − 2 < K < N/ρ + 1`, no stage switch, no fade mismatch. -/
+theorem frames_full_engine_exact_num (mx r : Nat) (blocks : List (Nat × Nat)) (drain : List Nat) (o : Nat)
+    (hmx : mx < 2 ^ 63) (hle : r ≤ mx) (hnorm : 1 ≤ (r / 2 ^ 52) % 2048) (hlo : -6 ≤ exactOctave r) (hhi : exactOctave mx ≤ 30)
+    (hdr : (run wcfg { st := init wcfg mx } ([.ratio r 0] ++ (procOps blocks ++ flushOps drain ++ [.flush o]))).out <
+      (run wcfg { st := init wcfg mx } ([.ratio r 0] ++ (procOps blocks ++ flushOps drain))).out + o) :
+    let R := run wcfg { st := init wcfg mx } ([.ratio r 0] ++ (procOps blocks ++ flushOps drain ++ [.flush o]))
+    let rate := rateIn (setIoRatio wcfg (init wcfg mx) r 0).cur
+    (0 < R.out → ((R.out : Int) - 1) * rate < (totalIn blocks : Int) * 8589934592) ∧
+    (totalIn blocks : Int) * 8589934592 < ((R.out : Int) + 2) * rate ∧ R.nsw = 0 ∧ R.nmis = 0 :=
+  frames_full_engine wcfg mx r blocks drain o (inRange_exact mx r hmx hle hnorm hlo hhi) hdr
+
+/-- the hypotheses of `frames_full_engine_exact_num` for maximum 8.0 and ratios 6.0, 0.25 and 3.9 (bit patterns) -/
+example : b8 < 2 ^ 63 ∧ b6 ≤ b8 ∧ b025 ≤ b8 ∧ b39 ≤ b8 ∧ 1 ≤ (b6 / 2 ^ 52) % 2048 ∧ 1 ≤ (b025 / 2 ^ 52) % 2048 ∧
+    -6 ≤ exactOctave b025 ∧ exactOctave b025 = -2 ∧ exactOctave b39 = 1 ∧ exactOctave b8 ≤ 30 := by decide
+
 set_option maxRecDepth 1000000 in
 /-- hypotheses and conclusion on a concrete run: maximum 8, ratio 6 (stage 2, increment `6·2²⁹` inside its octave),
     1000 input frames in blocks of 400/600 with output requests of 30 and 500 (nothing comes out yet: stage 2 has not
@@ -1201,8 +1221,10 @@ theorem witnessF36_within :
     exactly; `frames_full_engine_rounded_ratio` — within three when it is only approximated and the accumulated rounding
     stays below one frame.
 
-    What separates this from the statement below: (a) `InRange` is a hypothesis — that `octave` and `stepOf` of the same
-    double agree on the stage is a fact about the floating-point evaluation (`Num`), checked here on examples only;
+    What separates this from the statement below: (a) `InRange` is a hypothesis about the floating-point evaluation (`Num`)
+    — discharged for the exact evaluation by `inRange_exact` (`Vr/ExactNum.lean`; `frames_full_engine_exact_num` has no such
+    hypothesis), so what is left of (a) is the agreement of IEEE arithmetic with `Num.exact`, which the driver checks at
+    every ratio it meets;
     (b) for an inexact ratio the bound proved is three frames below, two above (clock phase < 1, floor of `N / 2^k` < 1,
     accumulated rounding of the increment < 1); the "within two" of the statement below would need the rounding term
     quantified from `N < 2³¹` (it is at most `(K+2)·2⁻³³·rateScale`), not attempted; (c) only runs that start with the
